@@ -272,4 +272,21 @@ theorem raised_keeps_state [DecidableEq PK] (subs : List Nat) (st : State PK) (a
   all_goals first | rfl | (simp_all; done)
 
 
+theorem decodeWire_respell {PK Sig Msg Sp : Type} (dec : Sp → KeyField PK) (ren : Sp → Sp)
+    (hren : ∀ sp, dec (ren sp) = dec sp) (w : SpelledWire Sp Sig Msg) :
+    decodeWire dec (respell ren w) = decodeWire dec w := by
+  cases w <;> simp [respell, decodeWire, hren]
+
+theorem map_decode_respell {PK Sig Msg Sp : Type} (dec : Sp → KeyField PK) (ren : Sp → Sp)
+    (hren : ∀ sp, dec (ren sp) = dec sp) (bs : List (List (SpelledWire Sp Sig Msg))) :
+    (bs.map (fun b => b.map (respell ren))).map (fun b => b.map (decodeWire dec)) =
+      bs.map (fun b => b.map (decodeWire dec)) := by
+  induction bs with
+  | nil => rfl
+  | cons b bs ih =>
+    simp only [List.map_cons, List.map_map] at ih ⊢
+    rw [ih]
+    congr 1
+    exact List.map_congr_left (fun w _ => decodeWire_respell dec ren hren w)
+
 end Tahoe.Introducer
